@@ -2934,3 +2934,44 @@ def _(m, callee, args):
 def _(m, callee, args):
     # the derive's compile-time probe for `#[ts(optional)]` (a function with an empty body, local to the generated method)
     return ()
+
+
+@model(r'str::<impl str>::(match_indices|rmatch_indices|matches)::<')
+def _(m, callee, args):
+    cs = rstr(m, args[0]).cs
+    kind, p = _pat_pred(m, args[1])
+    hits = []
+    if kind == 'str':
+        if not p:
+            raise Unsupported('match_indices with an empty pattern')
+        i = 0
+        while True:
+            i = find(m, cs, p, i)
+            if i < 0:
+                break
+            hits.append((i, len(p)))
+            i += len(p)
+    else:
+        for k, c in enumerate(cs):
+            if any(cmp_char_eq(m, c, q) for q in p):
+                hits.append((k, 1))
+    if 'rmatch' in callee:
+        hits.reverse()
+    if '::matches::<' in callee:
+        return PyIter('list', items=[S(cs[i:i + n]) for i, n in hits], pos=0)
+    return PyIter('list', items=[(_blen(m, cs[:i]), S(cs[i:i + n])) for i, n in hits], pos=0)
+
+
+@model(r'^String::(split_off|drain)$|^String::replace_range::<|^String::retain::<')
+def _(m, callee, args):
+    from .models import cidx
+    r = args[0]
+    cs = rstr(m, r).cs
+    if callee.endswith('split_off'):
+        i = cidx(m, cs, args[1], 'split index')
+        m.write_place(r.frame, r.place, RStr(cs[:i]))
+        return RStr(cs[i:])
+    if 'retain' in callee:
+        m.write_place(r.frame, r.place, RStr([c for c in cs if truthy(m, m.call_closure(args[1], [c]))]))
+        return ()
+    raise Unsupported(callee)
